@@ -42,7 +42,7 @@ MIN_COUNTERS = {
     'thorough': {'rt_resumptions_checked': 100000, 'nrt_resumptions_checked': 200000,
                  'rt_programs_finished': 2000, 'nrt_programs': 20000},
 }
-FEATURES = ('tempo', 'cond', 'flow', 'call', 'embed', 'resched')
+FEATURES = ('tempo', 'cond', 'flow', 'call', 'embed', 'resched', 'beats')
 
 
 def plan(tier, seed):
